@@ -371,6 +371,9 @@ def render_into(s, out, proto):
                 elif r.kind == "bare":
                     emit(f"  {r.label} : {r.kw['attr']} > 0;")
                     proto.append(f"bareattr {r.kw['attr']}")
+                elif r.kind == "badgroup":
+                    emit(f"  {r.label} : SELF.{r.kw['attr']}\\{r.kw['ent']}.{r.kw['sub']} > 0;")
+                    proto.append(f"badgroup {r.kw['sub']}")
                 elif r.kind == "smallreal":
                     emit(f"  {r.label} : SELF.{r.kw['attr']} > {r.kw['lit']};")
                     proto.append(f"selfattr {r.kw['attr']}")
@@ -1058,6 +1061,24 @@ def m_undef_func_in_type_where(s, rng):
     return Fault("undefined-function", s, [("UNDEFINED_FUNC", [nm]), ("MISSING_SELF", [r.label])], note=f"WHERE rule of TYPE {t.name} ({kind})")
 
 
+def m_group_ref_on_non_entity(s, rng):
+    """`SELF.x\\ent.attr` where x is an attribute of a non-entity type (simple or aggregate)"""
+    hosts = [(e, a) for e in s.entities() for a in e.attrs
+             if a.inverse_for is None and a.redecl_of is None and
+             (a.ty[0] == "S" or (a.ty[0] == "A" and a.ty[2][0] == "S" and not a.ty[1].startswith("ARRAY")))]
+    # (an ARRAY operand takes another branch of EXPresolve_op_group that marks the expression failed without any diagnostic)
+    tgts = [(x, b) for x in s.entities() for b in x.attrs if b.inverse_for is None]
+    if not hosts or not tgts:
+        return None
+    e, a = rng.choice(hosts)
+    x, b = rng.choice(tgts)
+    r = Rule(f"wr{len(e.rules)}", "badgroup", attr=a.name, ent=x.name, sub=b.name)
+    e.rules.append(r)
+    return Fault("bad-group-reference", s, [("GROUP_REF_UNEXPECTED_TYPE", ["<expression>"]), ("ATTRIBUTE_REF_FROM_NON_ENTITY", [b.name])],
+                 note=f"SELF.{a.name} is of type {ty_text(a.ty)}")
+
+
+MUTATORS["group_ref_on_non_entity"] = m_group_ref_on_non_entity
 MUTATORS["undef_bare_attr"] = m_undef_bare_attr
 MUTATORS["inverse_bad_attr_near"] = m_inverse_bad_attr_near
 MUTATORS["undef_func_in_type_where"] = m_undef_func_in_type_where
